@@ -133,6 +133,10 @@ fn oracle(ctx: &mut Ctx, player: &Player, input: &Value, scn: &Scenario, played:
             by_hash.insert(sha256(&player.builder.ta_bytes(&scn.world, &ta.content)), ta.content.clone());
         }
     }
+    // Ground truth of what the store should hold per URI: the last decodable
+    // download that was reached, until it expires (cleanup may drop expired
+    // or undecodable copies, nothing else).
+    let mut expected_store: std::collections::BTreeMap<String, TaContent> = Default::default();
     for (r, run) in scn.runs.iter().enumerate() {
         let ob = &played.obs[r];
         if !ob.out.ok() {
@@ -155,7 +159,11 @@ fn oracle(ctx: &mut Ctx, player: &Player, input: &Value, scn: &Scenario, played:
                 let download_bytes = ob.local.get(u);
                 let download = classify(download_bytes.and_then(|b| by_hash.get(&sha256(b))), run.now, tal.key);
                 let before_bytes = if r == 0 { None } else { played.obs[r - 1].store.tas.get(&ta_store_path(u)) };
-                let stored = classify(before_bytes.and_then(|b| by_hash.get(&sha256(b))), run.now, tal.key);
+                // The copy the store holds — or, if it is gone although it
+                // should still be there, the copy it ought to hold.
+                let stored_content = before_bytes.and_then(|b| by_hash.get(&sha256(b)))
+                    .or_else(|| expected_store.get(u));
+                let stored = classify(stored_content, run.now, tal.key);
                 let after_bytes = ob.store.tas.get(&ta_store_path(u));
                 // An undecodable download never replaces the stored copy.
                 if let Some(dl) = download_bytes {
@@ -179,6 +187,12 @@ fn oracle(ctx: &mut Ctx, player: &Player, input: &Value, scn: &Scenario, played:
                     }
                 }
                 let cand = if download.decodes { download.clone() } else { stored.clone() };
+                // Reached (no earlier URI of this TAL usable) and decodable: stored.
+                if download.decodes && !candidates.iter().any(|c: &(String, Cand, Cand)| c.2.usable) {
+                    if let Some(content) = download_bytes.and_then(|b| by_hash.get(&sha256(b))) {
+                        expected_store.insert(u.clone(), content.clone());
+                    }
+                }
                 candidates.push((u.clone(), download, cand));
             }
             allowed.extend(candidates.iter().filter(|c| c.2.usable).filter_map(|c| c.2.ca.clone()));
@@ -232,6 +246,11 @@ fn oracle(ctx: &mut Ctx, player: &Player, input: &Value, scn: &Scenario, played:
                 );
             }
         }
+        // End-of-run cleanup legitimately drops expired copies.
+        expected_store.retain(|_, content| match content {
+            TaContent::Cert { not_after, .. } => *not_after > run.now,
+            _ => false,
+        });
         if !any_usable && !served.is_empty() {
             ctx.oracle_fail(
                 "payload-without-ta",
@@ -336,6 +355,27 @@ fn generate(ctx: &mut Ctx) -> Vec<Value> {
             ],
         };
         cases.push(json!({ "scenario": to_json(&scn), "memo": 1 }));
+    }
+    // Two TALs (keys 0 and 6, one URI each), cleanup enabled: both stored in run 0; from run 1
+    // on one TAL's download is absent / garbage while the other keeps succeeding. The stored
+    // copy must keep serving the failing TAL in runs 1 AND 2.
+    for failing in [0usize, 1] {
+        for kind in ["absent", "garbage"] {
+            ctx.nontrivial(format!("two-tals failing={failing} {kind}"));
+            let mut w = world(2);
+            w.tals = vec![tal("ta", TAL_KEY, &[&uri(1)]), tal("tb", NEW_KEY, &[&uri(2)])];
+            let good = ["match", "newkey"];
+            let mut later = good;
+            later[failing] = kind;
+            let scn = Scenario {
+                world: w.clone(), opts: EngineOpts::default(),
+                runs: vec![
+                    run(T0 - 2 * DAY, &w, &good), run(T0, &w, &later),
+                    run(T0 + HOUR, &w, &later), run(T0 + 2 * HOUR, &w, &good),
+                ],
+            };
+            cases.push(json!({ "scenario": to_json(&scn), "memo": 1 }));
+        }
     }
     cases
 }
